@@ -83,6 +83,29 @@ func verifC18Case(c vCase, out *vOut) {
 				}
 			}
 			out.printf("remote %s res=ok str=%s rt=%s outs=%s", c.id, vHex([]byte(str)), rt, strings.Join(outs, ","))
+		case "parse": // parse p<k> s=<hex>: the raw text a user writes, straight into the parser
+			r, err := ParsePrioritizedRoundRobinRemote(string(vUnhex(c.get("s"))))
+			if err != nil {
+				out.printf("parse %s res=err", c.id)
+				return
+			}
+			// what it hands out over one full rotation, and what it prints
+			seen := map[string]int{}
+			var outs []string
+			first := r.GetAddress()
+			outs = append(outs, vHexS(first))
+			seen[first]++
+			for i := 0; i < 64; i++ {
+				if r.Peek() == first && len(outs) > 0 && i > 0 {
+					break
+				}
+				a := r.GetAddress()
+				if a == first {
+					break
+				}
+				outs = append(outs, vHexS(a))
+			}
+			out.printf("parse %s res=ok str=%s outs=%s", c.id, vHex([]byte(r.String())), strings.Join(outs, ","))
 		case "conc":
 			r, err := NewPrioritizedRoundRobinRemote(vDecGroups(c.get("groups")))
 			if err != nil {
